@@ -35,7 +35,7 @@ def describe(tier):
             "reference transducer, repairs a glued closing quote without touching whitespace and labels iff de-escaping changed the text; the "
             "comparison is on the complete result list, so it is both the forward and the converse direction. (3) PowerShell invocations from a "
             "grammar: token x value-less switches x EVERY prefix of -encodedcommand x -// style x argument quoting x payload x caret at EVERY "
-            "position (<=1) x prefix context, and plain invocations x enclosing context {none,'..',\"..\",('..'),unclosed variants} x prefix x suffix. "
+            "position (<=1) x prefix context, and plain invocations x enclosing context {none,'..',\"..\",('..'),unclosed variants} x prefix x suffix; FOR-loop / quoted contexts whose opener lies 0..2200 (thorough ..9000) bytes before the token, every distance, with further quotes inside the command. "
             "(4) the same cmd reference on every value searched during scans of the shell/pwsh/mix scan-level families (nested contexts, decoded "
             "values). states = distinct inputs, transitions = decoder invocations compared, traces = comparisons with the reference. "
             "Non-trivial = an input on which the reference expects at least one result."
@@ -54,7 +54,7 @@ def plan(tier, seed):
     units = [("carets", tier, u[2]) for u in CARETS.units(tier)]
     units += [("cmd", tier, u[2]) for u in CMD.units(tier)]
     units += [("ps-enc", tier, i) for i in range(len(PS_TOKENS))]
-    units += [("ps-plain", tier)]
+    units += [("ps-plain", tier)] + [("ps-far", tier, i) for i in range(8)]
     units += [("stream", u) for u in streams.plan(tier, fams=STREAM_FAMS)]
     return units
 
@@ -281,6 +281,24 @@ def run_unit(unit, rec):
             rec.mark("states", data, True)
             check_ps(rec, data, start, exp, w, len(data))
         rec.sample({"family": "ps-plain", "last": data})
+    elif kind == "ps-far":
+        hi = 2200 if unit[1] == "quick" else 9000
+        n = 0
+        for dist in range(unit[2], hi, 8):
+            filler = b"A" * dist
+            for (o, c), inner in itertools.product(((b"('", b"')"), (b'"', b'"'), (b"'", b"'")), (b" -nop -c write-host 'hi' ; exit", b' -c echo "x" y', b" -c ls")):
+                if c in inner and c != b"')":
+                    continue
+                pre = b"for /f %a in " + o + b"echo " + filler + b" & "
+                data = pre + b"powershell" + inner + c + b" do echo %a"
+                start = len(pre)
+                end = start + len(b"powershell" + inner)
+                raw = data[start:end]
+                de = shell_ref.strip_ref(raw)
+                exp = ("shell.powershell", de, "unescape.shell.carets" if de != raw else "", start, end, [])
+                n += 1
+                check_ps(rec, data, start, exp, {"kind": "ps-plain", "data": data, "start": start, "end": end}, len(data))
+        rec.sample({"family": "ps-far", "distances": f"{unit[2]}..{hi} step 8", "cases": n})
     elif kind == "stream":
         streams.run_unit(unit[1], rec, stream_monitor)
 
